@@ -43,10 +43,20 @@ def src_file(rng, tier, base, fmt=None, tb=None, name="in"):
     if tb is None:
         tb = gen_tb(rng, tier, continuous=(fmt == "brackets"))
     codec, ext = SRC[fmt]
+    parens = False
+    if fmt in ("export", "tigerxml") and rng.random() < 0.3:
+        # bracket characters in words (these two formats carry them verbatim): what the
+        # bracket writers / replace_parens make of them must not depend on history or hash seed
+        tb = [model.clone(s) for s in tb]
+        for s in tb:
+            for t in s["tokens"]:
+                if rng.random() < 0.25:
+                    t[0] = rng.choice(model.W_PAREN + model.W_PAREN[-3:] * 2)
+                    parens = True
     gz = fmt in ("export", "brackets") and rng.random() < 0.15
     path = "%s/%s%s%s" % (base, name, ext, ".gz" if gz else "")
     return fmt, path, {"tb": tb, "codec": codec, "layout": rng.randrange(1 << 30),
-                       "enc": "utf-8", "gz": gz}
+                       "enc": "utf-8", "gz": gz, "parens": parens}
 
 
 def tfile(rng, tb, need_pos):
